@@ -71,6 +71,27 @@ def trial(seed, n=3, props=2):
     return problems, len(seen)
 
 
+def sweep(lo, hi, configs=((3, 2), (3, 3), (4, 3), (5, 2), (5, 3))):
+    """all configs x seeds lo..hi-1 -> {"evaluations": n, "violations": [{"case": ..}, ..]} (first 5 per config)"""
+    out = {"evaluations": 0, "violations": [], "decided_runs": 0}
+    for n, props in configs:
+        shown = 0
+        for seed in range(lo, hi):
+            pr, nd = trial(seed, n, props)
+            out["evaluations"] += 1
+            out["decided_runs"] += nd > 0
+            if pr and shown < 5:
+                shown += 1
+                out["violations"].append({"case": f"n={n} proposers={props} seed={seed}", "what": "; ".join(pr)})
+    return out
+
+
+if __name__ == "__main__" and "--json" in sys.argv:
+    import json
+    i = sys.argv.index("--json")
+    print("C12-RESULT " + json.dumps(sweep(int(sys.argv[i + 1]), int(sys.argv[i + 2]))))
+    sys.exit(0)
+
 if __name__ == "__main__":
     lo, hi = (int(sys.argv[1]), int(sys.argv[2])) if len(sys.argv) > 2 else (0, 400)
     n = int(sys.argv[3]) if len(sys.argv) > 3 else 3
